@@ -18,7 +18,8 @@
 //     consumed region): kept values must be unchanged and the remaining reads must give the same results as before.
 // `alias=FAIL <what>#<index of the value>` names the first violation. (The model has value semantics: always `alias=ok`.)
 //
-// A second line form, `range32 <block>`, covers 2^16 consecutive int32 values with one CRC (see range.go).
+// A second line form, `range32 <block>`, covers 2^16 consecutive int32 values with one CRC (see range.go); `conc ...` runs
+// several sequences concurrently on private streams and `giant ...` writes one record of 2^28 bytes and more (see conc.go).
 package main
 
 import (
@@ -239,6 +240,12 @@ func checkKept(ks []kept, want [][]byte, what string) string {
 func exec(c *hx.Ctx, line string) string {
 	if strings.HasPrefix(line, "range32 ") {
 		return execRange(strings.TrimSpace(line[8:]))
+	}
+	if strings.HasPrefix(line, "conc ") {
+		return execConc(line)
+	}
+	if strings.HasPrefix(line, "giant ") {
+		return execGiant(line)
 	}
 	toks := splitToks(line)
 	want := make([][]byte, len(toks)) // private copies of the byte payloads that were written
